@@ -5,7 +5,10 @@
    (the idealisation of SHA-512 the property needs; it appears as an explicit premise, it
    is not claimed of the concrete SHA-512 of Sha512.v which the correspondence executes).
    Only statements, [exact], Print Assumptions, examples. *)
-From FF Require Import model.Bytes model.Msgp model.Forward model.Handshake proofs.Handshake_Proofs.
+From FF Require Import model.Bytes model.Show model.Msgp model.Forward model.Handshake model.Spec model.AckSpec
+  proofs.Chunk_Proofs proofs.Handshake_Proofs proofs.AckSpec_Proofs.
+(* [nx f bs]: no value boundary of the encoding carries an ext32 header -- the one header the
+   stream skipper of the msgp dependency cannot pass (recorded finding D18) *)
 
 (* transport phase is entered exactly when the PONG says auth_result = true and carries the
    digest of the formula for the salt of THIS handshake and the nonce of the HELO received *)
@@ -17,6 +20,39 @@ Theorem C05_accept_iff : forall (H : bytes -> bytes) (chost key salt inp1 inp2 :
      po_auth po = true /\ po_digest po = digest H salt (po_host po) (h_nonce o) key).
 Proof. exact client_accept_iff. Qed.
 Print Assumptions C05_accept_iff.
+
+(* the PONG decoder of C05_accept_iff accepts exactly the msgpack encodings (by the independent
+   specification parser of Spec.v) of a five-element array [type, auth_result, reason,
+   server_hostname, digest], in any legal header widths *)
+Theorem C05_pong_decoder_exact : forall p bs po rest,
+  U_pong p bs = Ok (po, rest) <-> parse1 bs = Some (pong_value po, rest).
+Proof. exact U_pong_iff. Qed.
+Print Assumptions C05_pong_decoder_exact.
+
+(* ([kn], [ka], [kk] are the byte strings "nonce", "auth", "keepalive") *)
+Example C05_key_names : kn = [x6e; x6f; x6e; x63; x65] /\ ka = [x61; x75; x74; x68] /\
+  kk = [x6b; x65; x65; x70; x61; x6c; x69; x76; x65].
+Proof. vm_compute. repeat split. Qed.
+
+(* a HELO in any msgpack encoding whose option map has string keys and holds nonce, auth and
+   keepalive exactly once each (in any order, among any other entries) is understood *)
+Theorem C05_helo_decoder_complete : forall p f bs ty l r n a k,
+  parse f bs = Some (VArr [VStr ty; VMap l], r) ->
+  str_keys p l ->
+  key_count kn l = 1%nat -> In (VStr kn, VBin n) l ->
+  key_count ka l = 1%nat -> In (VStr ka, VBin a) l ->
+  key_count kk l = 1%nat -> In (VStr kk, VBool k) l ->
+  (p = Stream -> nx f bs = true) ->
+  U_helo p bs = Ok ({| hl_type := ty;
+                       hl_opts := Some {| h_nonce := n; h_auth := a; h_keepalive := k |} |}, r).
+Proof. exact U_helo_complete. Qed.
+Print Assumptions C05_helo_decoder_complete.
+
+(* the PING a server receives: accepted by the decoder iff it is the six-element array *)
+Theorem C05_ping_decoder_sound : forall p bs pg r, U_ping p bs = Ok (pg, r) ->
+  exists f, parse f bs = Some (ping_value pg, r).
+Proof. exact U_ping_sound. Qed.
+Print Assumptions C05_ping_decoder_sound.
 
 (* the bytes written are nothing, or exactly one PING carrying the salt and the digest
    hex (H (salt ++ client_hostname ++ nonce ++ key)) *)
